@@ -210,6 +210,11 @@ def evaluate(d):
     if t[0] == "ret":
         p = lab.sl_parser.Parser()
         o = lab.parse(t[1].encode("utf-8"), parser=p)
+        if o.verdict() is not True:
+            # no quotes or backslashes are generated here: a rendering the parser refuses
+            # means the set cannot be read back at all
+            res.append(("reloaded", "script", "does-not-parse",
+                        "%r / %r" % (t[1][:200], getattr(p, "error", None))))
         if o.verdict() is True:
             b = fl.FiltersSet("r", *pre)
             if fl.call(b.from_parser_result, p)[0] == "ret":
